@@ -157,6 +157,10 @@ pub struct Listener {
     no_wait_rx: mpsc::Receiver<RemoteConnectMsg>,
     port_allocator: PortAllocator,
     terminate_tx: mpsc::UnboundedSender<()>,
+    /// The client-dropped marker has been received from the queue of waiting requests.
+    wait_dropped: bool,
+    /// The client-dropped marker has been received from the queue of non-waiting requests.
+    no_wait_dropped: bool,
     closed: bool,
 }
 
@@ -171,7 +175,7 @@ impl Listener {
         wait_rx: mpsc::Receiver<RemoteConnectMsg>, no_wait_rx: mpsc::Receiver<RemoteConnectMsg>,
         port_allocator: PortAllocator, terminate_tx: mpsc::UnboundedSender<()>,
     ) -> Self {
-        Self { wait_rx, no_wait_rx, port_allocator, terminate_tx, closed: false }
+        Self { wait_rx, no_wait_rx, port_allocator, terminate_tx, wait_dropped: false, no_wait_dropped: false, closed: false }
     }
 
     /// Obtains the port allocator.
@@ -197,7 +201,7 @@ impl Listener {
                     }
                 },
 
-                no_wait_req_opt = self.no_wait_rx.recv() => {
+                no_wait_req_opt = self.no_wait_rx.recv(), if !self.no_wait_dropped => {
                     match no_wait_req_opt {
                         Some(RemoteConnectMsg::Request(no_wait_req)) => {
                             match self.port_allocator.try_allocate() {
@@ -206,8 +210,10 @@ impl Listener {
                             }
                         },
                         Some(RemoteConnectMsg::ClientDropped) => {
-                            self.closed = true;
-                            break Ok(None);
+                            self.client_dropped(false);
+                            if self.closed {
+                                break Ok(None);
+                            }
                         },
                         None => break Err(ListenerError::MultiplexerError),
                     }
@@ -226,23 +232,35 @@ impl Listener {
     /// Returns [None] when the client of the remote endpoint has been dropped and
     /// no more connection requests can be made.
     pub async fn inspect(&mut self) -> Result<Option<Request>, ListenerError> {
-        if self.closed {
-            return Ok(None);
-        }
-
-        let req_opt = tokio::select! {
-            req_opt = self.wait_rx.recv() => req_opt,
-            req_opt = self.no_wait_rx.recv() => req_opt,
-        };
-
-        match req_opt {
-            Some(RemoteConnectMsg::Request(req)) => Ok(Some(req)),
-            Some(RemoteConnectMsg::ClientDropped) => {
-                self.closed = true;
-                Ok(None)
+        loop {
+            if self.closed {
+                return Ok(None);
             }
-            None => Err(ListenerError::MultiplexerError),
+
+            let (req_opt, wait) = tokio::select! {
+                req_opt = self.wait_rx.recv(), if !self.wait_dropped => (req_opt, true),
+                req_opt = self.no_wait_rx.recv(), if !self.no_wait_dropped => (req_opt, false),
+            };
+
+            match req_opt {
+                Some(RemoteConnectMsg::Request(req)) => return Ok(Some(req)),
+                Some(RemoteConnectMsg::ClientDropped) => self.client_dropped(wait),
+                None => return Err(ListenerError::MultiplexerError),
+            }
         }
+    }
+
+    /// The client-dropped marker has been received from one of the two request queues.
+    ///
+    /// Requests that were sent before the client was dropped may still be waiting in the other
+    /// queue, thus the listener is closed only when both queues have delivered their marker.
+    fn client_dropped(&mut self, wait: bool) {
+        if wait {
+            self.wait_dropped = true;
+        } else {
+            self.no_wait_dropped = true;
+        }
+        self.closed = self.wait_dropped && self.no_wait_dropped;
     }
 
     /// Convert this into a listener stream.
